@@ -6,12 +6,11 @@ From TL Require Import Lib.Base Model.DispatchTypes Gen.DispatchGen Model.Dispat
 
 Definition with_flag (i : nat) (q : quirks) : quirks :=
   match i with
-  | 0 => mk_quirks false (q_foreign_reject_aborts q)
-  | _ => mk_quirks (q_shebang_any_ext q) false
+  | _ => mk_quirks false
   end.
 
 (* candidates: the claimed vector, the claimed vector with one flag switched off, the ideal *)
-Definition candidates (q : quirks) : list quirks := [q; with_flag 0 q; with_flag 1 q; ideal].
+Definition candidates (q : quirks) : list quirks := [q; with_flag 0 q; ideal].
 
 Definition out_eqb (a b : outcome) : bool :=
   match a, b with
@@ -26,7 +25,7 @@ Definition judge (q : quirks) (c : cfg) (t : atab) (f : file) (runs : list (stri
          let cmd := fst r in
          let impl := snd r in
          let spec := Ok (spec_out cmd t f) in
-         (is_command cmd && tg && own_cfg_ok cmd c)
+         (is_command cmd && tg && cfg_clean c)
          :: out_eqb impl spec
          :: out_eqb (run_cmd ideal cmd c t f) spec
          :: map (fun cq => out_eqb impl (run_cmd cq cmd c t f)) (candidates q))
